@@ -206,6 +206,9 @@ PATTERNS = [
     ('%(dut_id)s.%(station_id)s.rec', None),
     ('callable', 'cb-DUT1-tn'),
     ('plain.out', 'plain.out'),
+    # format specs and conversions are part of {}-formatting
+    ('{dut_id}.{start_time_millis:013d}.rec', lambda rec: '%s.%013d.rec' % (rec.dut_id, rec.start_time_millis)),
+    ('{dut_id!r}-{station_id:>6}.rec', lambda rec: '%r-%6s.rec' % (rec.dut_id, rec.station_id)),
 ]
 
 
@@ -354,6 +357,8 @@ def dest_name(case):
   if case['kind'] == 'atomic_write':
     return 'aw.out'
   pat, exp = PATTERNS[case['pattern']]
+  if callable(exp):
+    exp = exp(the_record() if case['kind'] == 'json' else simple_record())
   if exp is None:
     rec = the_record() if case['kind'] == 'json' else simple_record()
     exp = '%s.%s.rec' % (rec.dut_id, rec.station_id)
@@ -439,6 +444,8 @@ def check(case, acct=None, known=()):
       r.bad('C17/wrong-content', 'destination holds %r..., expected %r...' % (content[:40], expected[:40]))
     if staged:
       r.bad('C17/temp-left-behind', 'staging dir still has %r after success' % (staged,))
+    if content is None:
+      return finish(r, case, n_eval, nontrivial_positions)     # published under another name: nothing further to enumerate
     n_ops = fault.n
     oplog = list(fault.log)
     allowed = {None: 'absent'} if prev is None else {}
